@@ -1,7 +1,8 @@
 #!/usr/bin/env python3
 """Run the registered checks against the seeded changes kept under /verif/seeded/<id>/.
 
-usage: tools/seeded.py [<id> ...] [--all-checks] [--tier quick|thorough]
+usage: tools/seeded.py [<id> ...] [--all-checks] [--only=Cxx[,Cyy]] [--tier=thorough]
+       (--only: run these checks instead of the seed's own one and MERGE the outcome into result.json)
 
 For every seeded change: copy /repo's working tree to a scratch directory under /tmp,
 apply patch.diff there, run `REPO=<scratch> bin/check <property>` (the property named in
@@ -25,6 +26,9 @@ def run(sid, all_checks, tier):
             print("%s: patch does not apply: %s" % (sid, p.stdout.decode()[-300:]))
             return None
         props = [meta["property"]]
+        only = [a.split("=", 1)[1].split(",") for a in sys.argv if a.startswith("--only=")]
+        if only:
+            props = only[0]
         if all_checks:
             man = json.load(open(os.path.join(V, "MANIFEST.json")))
             props = [c["property_id"] for c in man["checks"]]
@@ -37,6 +41,11 @@ def run(sid, all_checks, tier):
             viol = [l for l in out.splitlines() if l.startswith("VIOLATION")]
             res[pid] = {"exit": q.returncode, "violations": len(viol), "first": viol[0][:300] if viol else "", "wall_s": round(time.time() - t)}
             print("%s: check %s exit=%d violations=%d %s" % (sid, pid, q.returncode, len(viol), viol[0][:160] if viol else ""), flush=True)
+        rp = os.path.join(d, "result.json")
+        if only and os.path.exists(rp):
+            old = json.load(open(rp))["results"]
+            old.update(res)
+            res = old
         json.dump({"seeded": sid, "tier": tier, "results": res, "caught": any(r["exit"] == 1 for r in res.values())},
                   open(os.path.join(d, "result.json"), "w"), indent=1)
         return res
